@@ -49,6 +49,7 @@ def run(ctx):
     guarded(ctx, 'C04.R2', 'C04.R2/from_partition', r2_from_partition)
     guarded(ctx, 'C04.R3', 'C04.R3/activation', r3_activation)
     guarded(ctx, 'C04.R4', 'C04.R4/ordering', r4_ordering)
+    guarded(ctx, 'C04.R4', 'C04.R4/candidates', r4b_candidates)
     guarded(ctx, 'C04.R5', 'C04.R5/partitions', r5_partitions)
     guarded(ctx, 'C04.R6', 'C04.R6/plumbing', r6_plumbing)
     guarded(ctx, 'C04.R7', 'C04.R7/splitter-store', r7_splitter_store)
@@ -264,10 +265,65 @@ def r4_ordering(ctx):
                 role = 'candidate-collection-shape'
             ctx.obligation(ok)
             (ctx.ok if ok else ctx.violation)('C04.R4', 'C04.R4/refine_with_splitter/%s' % role, fn.path, fn.site(), {'calls': [T.show(calllog.call_term(c))[:120] for c in calls]}, cfg)
+            okx = loop_exhausted(ip, o.state, 'Iter')
+            ctx.obligation(okx)
+            (ctx.ok if okx else ctx.violation)('C04.R4', 'C04.R4/refine_with_splitter/every-candidate-visited:exit-only-at-exhaustion', fn.path, fn.site(), {'calls': [T.show(calllog.call_term(c))[:100] for c in calls][-4:]}, cfg)
         for need in ('own-block-withdrawn-first-and-refined-last', 'own-block-untouched-when-not-a-candidate'):
             ok = need in kinds
             ctx.obligation(ok)
             (ctx.ok if ok else ctx.violation)('C04.R4', 'C04.R4/refine_with_splitter/case-present:%s' % need, fn.path, fn.site(), None, cfg)
+
+
+def r4b_candidates(ctx):
+    """collect_refinement_candidates: the set is reset, then for EVERY state x of pred(s.block, s.char) (the block s.class
+    of pred_classes[s.char]) the block of x is inserted iff it has more than one state; nothing else is inserted."""
+    slf, s, set_ = A(0), A(1), A(2)
+    for cfg in ('dev', 'rel'):
+        log = calllog.run(ctx, cfg, MIN + 'collect_refinement_candidates', exact_casts=[('u32', 'usize')])
+        ip, fn = log.ip, log.fn
+        main = ('fld', slf, 'main_partition')
+        kinds = set()
+        for it in log.iterations:
+            nx = [c for c in it.calls if c[0].endswith('::next')]
+            bid = it.named('Partition::block_id')
+            bsz = it.named('Partition::block_size')
+            ins = it.named('FastSet::insert')
+            ok = len(bid) == 1 and len(bsz) == 1
+            if ok:
+                poss = [hv for hv, ev in it.mapping if T.TYPES.get(hv) == 'usize']
+                if nx:
+                    x = T.typed(calllog.payload(calllog.call_term(nx[0])), 'u32')
+                else:
+                    x = bid[0][1][1]
+                    ok = (len(poss) == 1 and x[0] == 'elem' and x[2] == poss[0] and x[1][0] == 'items' and x[1][1][0] == 'call' and x[1][1][1].endswith('block_elements') and
+                          ip.entails(it.state, eq(it.cur.get(poss[0], poss[0]), T.mk_add(poss[0], I(1)))))
+                b = T.typed(calllog.call_term(bid[0]), 'u32')
+                big = lt(I(1), T.typed(calllog.call_term(bsz[0]), 'u32'))
+                ok = bid[0][1] == (main, x) and bsz[0][1] == (main, b)
+                if ok and ip.entails(it.state, big):
+                    ok = len(ins) == 1 and ins[0][1][1] == b
+                    kinds.add('inserted')
+                elif ok and ip.entails(it.state, NOT(big)):
+                    ok = not ins
+                    kinds.add('skipped-singleton')
+                else:
+                    ok = False
+            ctx.obligation(ok)
+            (ctx.ok if ok else ctx.violation)('C04.R4', 'C04.R4/collect_refinement_candidates/block-of-each-predecessor-inserted-iff-not-singleton', fn.path, fn.site(), {'calls': [T.show(calllog.call_term(c))[:140] for c in it.calls]}, cfg)
+        for o in log.outs:
+            if o.kind != 'ret':
+                continue
+            calls = o.state.calls
+            rs = [c for c in calls if c[0].endswith('FastSet::reset')]
+            be = [c for c in calls if c[0].endswith('block_elements')]
+            ok = (len(rs) == 1 and calls[0] == rs[0] and len(be) == 1 and be[0][1][1] == T.fld(s, 'class', 'u32') and
+                  be[0][1][0][0] == 'elem' and be[0][1][0][1] == ('fld', slf, 'pred_classes') and be[0][1][0][2] == T.fld(s, 'char', 'u32'))
+            ok = ok and loop_exhausted(ip, o.state)
+            ctx.obligation(ok)
+            (ctx.ok if ok else ctx.violation)('C04.R4', 'C04.R4/collect_refinement_candidates/reset-then-all-of-pred(s.block,s.char)-visited', fn.path, fn.site(), {'calls': [T.show(calllog.call_term(c))[:140] for c in calls][:6]}, cfg)
+        ok = kinds == {'inserted', 'skipped-singleton'}
+        ctx.obligation(ok)
+        (ctx.ok if ok else ctx.violation)('C04.R4', 'C04.R4/collect_refinement_candidates/both-cases-present', fn.path, fn.site(), {'cases': sorted(kinds)}, cfg)
 
 
 def r5_partitions(ctx):
